@@ -176,7 +176,7 @@ class JavaDataField(JavaBaseField):
     @cached_property
     def hash_code(self) -> str:
         if self.decl.type_ref.optional:
-            return f"{self.decl.java.name} == null ? 0 : {self.decl.java.name}.hashCode()"
+            return f"({self.decl.java.name} == null ? 0 : {self.decl.java.name}.hashCode())"
         elif self.decl.type_ref.type_def.java.typename == self.decl.type_ref.type_def.java.boxed:
             match self.decl.type_ref.type_def.name:
                 case "binary":
